@@ -266,3 +266,20 @@ def run(ctx):
     if not only or "traces" in only:
         _traces(ctx)
     ctx.exhaustive = True
+
+
+def replay(ctx, obj):
+    """./check C20 --replay FILE : re-run exactly the failing case recorded in a replay file"""
+    d = obj.get("detail") or {}
+    case = d.get("case")
+    if not case:
+        print(json.dumps(obj, indent=1)[:4000])
+        print("(a recorded trace, not an enumerated case: the record above is the failing run)")
+        return
+    fails = [x for x in D.check_chk_record(case) if x[0] != "OBS"]
+    print("case: %s" % json.dumps(case)[:3000])
+    for key, what, detail in fails:
+        print("  disagreement: %s\n    %s" % (key, what))
+        ctx.fail(key, what, detail)
+    if not fails:
+        print("  the implementation now agrees with the specification on this case")
